@@ -369,7 +369,11 @@ func doCheck(prop, tier string) int {
 		}
 		sort.Strings(missing)
 		if len(missing) > 0 && len(seen) > 0 {
-			incon = append(incon, "exported identifiers never exercised by the workload: "+strings.Join(missing, ", "))
+			// The workload exercises every identifier the pinned tree exports; anything else is API the
+			// tree under test has added. It cannot be driven by a harness that does not know it, so it is
+			// reported (and recorded in the evidence) as outside what was explored - not as a verdict.
+			merged.Extra["exported_identifiers_not_exercised"] = missing
+			fmt.Printf("NOTE property=%s exported identifiers unknown to the workload (not explored): %s\n", prop, strings.Join(missing, ", "))
 		}
 	}
 	merged.Violations = append(merged.Violations, crashViol...)
